@@ -170,12 +170,30 @@ func (v *DataModelView) DrawRelation(
 					Count:        1,
 				}
 			}
+		} else if elem, collection := collectionOf(attrType); elem != nil {
+			// a set, sequence or list column is listed like the same field of a tuple
+			_, _, label, _ := getNames(elem)
+			s = fmt.Sprintf("+ %s : **%s <%s>**\n", attrName, collection, label)
 		} else {
 			s = fmt.Sprintf("+ %s : %s\n", attrName, strings.ToLower(attrType.GetPrimitive().String()))
 		}
 		v.StringBuilder.WriteString(s)
 	}
 	v.StringBuilder.WriteString("}\n")
+}
+
+// collectionOf returns the element type of a set, sequence or list type and the word the diagram uses for it,
+// or nil for any other type.
+func collectionOf(t *sysl.Type) (*sysl.Type, string) {
+	switch {
+	case t.GetList() != nil:
+		return t.GetList().GetType(), "List"
+	case t.GetSet() != nil:
+		return t.GetSet(), "Set"
+	case t.GetSequence() != nil:
+		return t.GetSequence(), "Sequence"
+	}
+	return nil, ""
 }
 
 func (v *DataModelView) DrawPrimitive(
